@@ -19,9 +19,10 @@ EXPLANATION = (
     "counts parsed from Thrift are validated against their limits before they size an allocation or "
     "bound a loop; loops bounded by the untrusted num_children also stop at the element count; (2) "
     "every recursion cycle reachable from open/decode has a depth or progress guard; (3) every reader "
-    "function releases or hands over what it acquired on every path (ownership engine); (4) every "
-    "row-group/column/page/element index parameter is range-checked (< 0 || >= bound with an error "
-    "return) before its first use as a subscript, directly or by the callee it is first handed to; (5) "
+    "function releases or hands over what it acquired on every path (ownership engine); page_extent_ok and "
+    "mmap_available are evaluated over a grid of sizes and must be exactly the extent predicates; (4) every "
+    "row-group/column/page/element index parameter is range-checked (a lower and an upper guard with error "
+    "exits, in one test or consecutive tests) before its first use as a subscript, directly or by the callee it is first handed to; (5) "
     "in functions taking a carquet_error_t*, every error exit that returns NULL or a fresh error "
     "code passes CARQUET_SET_ERROR or a callee that received the error object, and "
     "carquet_error_set bounds its message with vsnprintf(CARQUET_ERROR_MESSAGE_MAX); (6) every store of "
